@@ -4,7 +4,6 @@ import (
 	"bytes"
 	"fmt"
 	"os"
-
 )
 
 // C09 – MAC keys are disclosed only once retired, and then they are disclosed.
